@@ -8,10 +8,13 @@
     directory held in a cluster chain, including its growth and the erasing of the new clusters (C12_dir_crash).  The
     general form (C12_crash_confined_to_writes, C12_torn_writes): for ANY device, ANY list of writes and ANY subset of them that
     reached the device — whole or torn to a prefix — every byte range that none of the writes overlaps reads exactly as before.
-    What remains unproved is only the characterisation of the write set of each whole operation (C12_confine: which ranges the
-    several primitives plus FAT flushes of one operation touch); it is checked by remounting the real image at every crash point. *)
+    Composition (C12_rewrite_then_flush): "rewrite a directory held in a cluster chain, then flush the FAT" — the tail of create,
+    makedir, remove, removedir, setinfo and of a handle's close — interrupted at any point, in any combination of its writes, leaves
+    every in-use cluster that is not one of the directory's own intact.  What remains unproved is the same characterisation for the
+    operations made of several such steps (removetree, makedir's two rewrites, a data write that grows a file); those are checked
+    by remounting the real image at every crash point. *)
 From Coq Require Import ZArith List Bool Lia.
-From PyFatV Require Import Base.Bytes Base.PyEnv Gen.Pure Model.Codec Model.Dir Model.FS Proofs.Session Proofs.Device Proofs.DirCodec Proofs.DirState Proofs.Chains Proofs.FileData.
+From PyFatV Require Import Base.Bytes Base.PyEnv Gen.Pure Model.Codec Model.Dir Model.FS Proofs.Session Proofs.Device Proofs.DirCodec Proofs.DirState Proofs.Chains Proofs.FileData Proofs.BootSafe Proofs.CrashOps.
 Import ListNotations.
 Open Scope Z_scope.
 
@@ -72,3 +75,35 @@ Theorem C12_torn_writes : forall d sz l l', dev_ok d -> Forall (fun w => 0 <= fs
   dread (apply_some d l' keep) sz a n = dread d sz a n.
 Proof. exact crash_torn_writes. Qed.
 Print Assumptions C12_torn_writes.
+
+Theorem C12_rewrite_then_flush : forall s loc es s1 s2 ch,
+  dev_ok (s_dev s) -> geom_ok s -> safe s -> 0 <= s_hint s -> vol_ok s ->
+  is_root_fixed s loc = false -> chain s loc = (ch, true) -> Forall (inside s) ch ->
+  0 <= BPB_NumFATs (s_h s) ->
+  fat_start s + BPB_NumFATs (s_h s) * fat_bytes s <= first_data_sector (s_p s) * BPB_BytsPerSec (s_h s) ->
+  write_dir s loc es = Ok s1 -> lenZ (pack_fat (ft s1) (s_fat s1) (s_hi s1)) <= fat_bytes s -> flush_fat s1 = Ok s2 ->
+  exists l, s_log s2 = l ++ s_log s /\
+    forall keep y, 2 <= y -> ~ In y ch -> nthZ (s_fat s) y <> 0 -> inside s y ->
+      dread (apply_some (s_dev s) l keep) (s_dsize s) (cluster_addr s y) (bpc s) = rd s (cluster_addr s y) (bpc s).
+Proof. exact rewrite_then_flush_crash. Qed.
+Print Assumptions C12_rewrite_then_flush.
+(* the computational premises are met on the FAT16 example volume after makedir D (its directory is the chain [3]) *)
+From PyFatV Require Import Properties.C16 Properties.C11.
+Example C12_rewrite_then_flush_example :
+  is_root_fixed ex11_a 3 = false /\ chain ex11_a 3 = ([3], true) /\ 0 <= s_hint ex11_a /\ 0 <= BPB_NumFATs (s_h ex11_a) /\
+  fat_start ex11_a + BPB_NumFATs (s_h ex11_a) * fat_bytes ex11_a <= first_data_sector (s_p ex11_a) * BPB_BytsPerSec (s_h ex11_a) /\
+  exists s1 s2, write_dir ex11_a 3 [] = Ok s1 /\ lenZ (pack_fat (ft s1) (s_fat s1) (s_hi s1)) <= fat_bytes ex11_a /\ flush_fat s1 = Ok s2 /\
+    (length (s_log s2) > length (s_log ex11_a))%nat.
+Proof.
+  split; [vm_compute; reflexivity|]. split; [vm_compute; reflexivity|]. split; [vm_compute; discriminate|]. split; [vm_compute; discriminate|].
+  split; [vm_compute; discriminate|].
+  destruct (write_dir ex11_a 3 []) as [s1|] eqn:E1; [|vm_compute in E1; discriminate]. exists s1.
+  destruct (flush_fat s1) as [s2|] eqn:E2.
+  - exists s2. split; [reflexivity|]. split; [|split; [reflexivity|]].
+    + assert (X : (match write_dir ex11_a 3 [] with Ok a => lenZ (pack_fat (ft a) (s_fat a) (s_hi a)) <=? fat_bytes ex11_a | Err _ => false end) = true) by (vm_compute; reflexivity).
+      rewrite E1 in X. apply Z.leb_le. exact X.
+    + assert (X : (match (do a <- write_dir ex11_a 3 []; flush_fat a) with Ok b => (length (s_log ex11_a) <? length (s_log b))%nat | Err _ => false end) = true) by (vm_compute; reflexivity).
+      rewrite E1 in X. cbn [bind] in X. rewrite E2 in X. apply Nat.ltb_lt in X. exact X.
+  - exfalso. assert (X : (match (do a <- write_dir ex11_a 3 []; flush_fat a) with Ok _ => true | Err _ => false end) = true) by (vm_compute; reflexivity).
+    rewrite E1 in X. cbn [bind] in X. rewrite E2 in X. discriminate.
+Qed.
